@@ -255,6 +255,7 @@ int main(int argc, char** argv)
         rep.decoded.clear();
         bool r = fn(t, rep);
         if (!rep.frozen) ++ran;
+        if (!rep.frozen && !rep.decoded.empty()) rep.sample("generated_case", rep.decoded.substr(0, 600), 3);
         if (!r)
         {
             rep.frozen = true;
